@@ -212,7 +212,50 @@ func checkC13(c *core.Ctx) {
 	}
 	walkTop(fd.Body.List)
 	c.Count("validate_kind_loops", nLoops)
-	c.Floor("validate_kind_loops", 4)
+	// a kind whose loop is not in Validate's own statement list but in a
+	// function Validate reaches (a phase method, a table of check functions):
+	// the matrix below is read off Validate's own loops, so that arrangement is
+	// not recognised — UNDECIDED for the kind, not a missing check
+	delegated := map[string]string{}
+	{
+		ownLoops := map[string]bool{}
+		for _, s := range fd.Body.List {
+			if rs, ok := s.(*ast.RangeStmt); ok {
+				ownLoops[fileField(info, rs.X)] = true
+			}
+		}
+		self, _ := info.Defs[fd.Name].(*types.Func)
+		reach := reachableFuncs(p, pkg, fd)
+		for fn := range reach {
+			d := p.Decl(fn)
+			if fn == self || d == nil || d.Body == nil {
+				continue
+			}
+			ast.Inspect(d.Body, func(m ast.Node) bool {
+				if rs, ok := m.(*ast.RangeStmt); ok {
+					if k := fileField(info, rs.X); k != "" && !ownLoops[k] {
+						if _, tracked := kinds[k]; tracked {
+							if old, had := delegated[k]; !had || fn.Name() < old {
+								delegated[k] = fn.Name()
+							}
+						}
+					}
+				}
+				return true
+			})
+		}
+		if _, ok := delegated["Unions"]; ok {
+			delegated["UnionBranch"] = delegated["Unions"]
+		}
+		for _, k := range []string{"Enums", "Structs", "Messages", "Unions"} {
+			if fnName, ok := delegated[k]; ok {
+				c.Undecide("Validate: the loop over File.%s is not in Validate's own statement list but in %s, which Validate reaches: the facet matrix is read off Validate's own loops, this arrangement is not recognised", k, fnName)
+			}
+		}
+	}
+	if len(delegated) == 0 {
+		c.Floor("validate_kind_loops", 4)
+	}
 	required := []struct{ kind, facet, why string }{
 		{"Enums", "primitive", "an enum named like a primitive"},
 		{"Enums", "dupdef", "two definitions with one name"},
@@ -245,6 +288,9 @@ func checkC13(c *core.Ctx) {
 	}
 	for _, r := range required {
 		if !setKnown && (r.facet == "dupdef" || r.facet == "undefined") {
+			continue
+		}
+		if _, ok := delegated[r.kind]; ok {
 			continue
 		}
 		c.Check("R1", fmt.Sprintf("Validate checks %s for %s", r.facet, r.kind), p.Pos(fd.Pos()), kinds[r.kind][r.facet],
